@@ -14,7 +14,9 @@ use mls_rs_crypto_rustcrypto::RustCryptoProvider;
 
 fn ext_client(jitter: Option<u64>, cache: bool) -> ExternalClient<impl ExtConfig> {
     // `cache == false`: the application keeps the proposals and inserts them by hand (ExternalGroup::insert_proposal_from_message)
-    let b = ExternalClient::builder().crypto_provider(RustCryptoProvider::default()).identity_provider(BasicIdentityProvider).cache_proposals(cache);
+    // `cache == true` is the documented default of the builder: it is left unset, so that the default itself is under test
+    let b = ExternalClient::builder().crypto_provider(RustCryptoProvider::default()).identity_provider(BasicIdentityProvider);
+    let b = if cache { b } else { b.cache_proposals(false) };
     match jitter {
         Some(j) => b.max_epoch_jitter(j).build(),
         None => b.max_epoch_jitter(u64::MAX).build(), // same type; None is modelled by a separate flag below
@@ -217,6 +219,10 @@ pub fn run(o: &Opts) -> i32 {
                 rep: Report::default(),
                 mk: &mkc,
                 next_name: 0,
+                pending_bad_caps: 0,
+                bad_kp_ids: vec![],
+                forgers: vec![],
+                zombies: vec![],
                 tree_qa: Some(&mut treeqa),
                 filter_qa: None,
                 tap: Some(&mut tap),
